@@ -57,7 +57,7 @@ type c08Scen struct {
 	Bound      int  `json:"bound"` // preemption bound in the quick tier (thorough: +1)
 }
 
-func get(p string) c08Req         { return c08Req{M: "GET", Path: p} }
+func get(p string) c08Req        { return c08Req{M: "GET", Path: p} }
 func post(p, body string) c08Req { return c08Req{M: "POST", Path: p, Body: body} }
 
 func c08Scens(thorough bool) []c08Scen {
@@ -113,8 +113,16 @@ func c08Scens(thorough bool) []c08Scen {
 `
 	out = append(out,
 		c08Scen{Name: "functions/two-calls", Src: funcs, Threads: [][]c08Req{{get("/twice/3")}, {get("/twice/4")}}, Bound: 2},
-		c08Scen{Name: "functions/recursion-half-depth-each", Src: funcs, Threads: [][]c08Req{{get("/down/DEPTH")}, {get("/down/DEPTH")}}, Bound: 1},
 	)
+	// H2b: two evaluations that are each well below the evaluation-depth limit (500 nested expression evaluations) but
+	// exceed it together: a chain of 280 negations costs one evaluation level and two scheduling points per link, so
+	// every schedule with one preemption is affordable in the quick tier. The same through user-function recursion
+	// (thousands of scheduling points per request) runs in the thorough tier only.
+	deep := "@ GET /deep/:n {\n  $ b = n == \"1\"\n  > {r: " + strings.Repeat("!", 280) + "b}\n}\n"
+	out = append(out, c08Scen{Name: "functions/deep-expression-half-depth-each", Src: deep, Threads: [][]c08Req{{get("/deep/1")}, {get("/deep/0")}}, Bound: 1})
+	if thorough {
+		out = append(out, c08Scen{Name: "functions/recursion-half-depth-each", Src: funcs, Threads: [][]c08Req{{get("/down/DEPTH")}, {get("/down/DEPTH")}}, Bound: 1})
+	}
 	// H3: generic function with different type arguments
 	generic := `
 ! ident<T>(x: T): T {
@@ -137,6 +145,23 @@ func c08Scens(thorough bool) []c08Scen {
 		c08Scen{Name: "generics/different-type-arguments", Src: generic, Threads: [][]c08Req{{get("/gi/3")}, {get("/gs/x")}}, Bound: 2},
 		c08Scen{Name: "generics/two-functions", Src: generic, Threads: [][]c08Req{{get("/gp/x")}, {get("/gi/4")}}, Bound: 2},
 	)
+	// H3b: a generic function whose body passes its own type parameter on to another generic function: the inner call
+	// resolves T through the type checker's scope table, which all requests share
+	nested := `
+! inner<U>(y: U): U {
+  > y
+}
+! outer<T>(x: T): T {
+  > inner<T>(x)
+}
+@ GET /ni/:n {
+  > {r: outer(parseInt(n))}
+}
+@ GET /ns/:s {
+  > {r: outer(s)}
+}
+`
+	out = append(out, c08Scen{Name: "generics/nested-type-parameter", Src: nested, Threads: [][]c08Req{{get("/ni/3")}, {get("/ns/x")}}, Bound: 2})
 	// H7: a route that declares a name which is a module constant, racing a reader
 	consts := `
 const LIMIT = 10
@@ -414,7 +439,14 @@ func c08Judge(x *vrt.Exec, o *c08Obs, sc c08Scen, allowed map[string]bool) (key,
 			al = append(al, k)
 		}
 		sort.Strings(al)
-		return "response-no-sequential-order-gives", fmt.Sprintf("responses %q; sequential orders give only %q", o.flat, al)
+		// keyed by the scenario (not only its family) and the multiset of status codes, so that a recorded finding
+		// in one scenario does not cover a different interference in a sibling scenario
+		var st []string
+		for _, r := range o.flat {
+			st = append(st, strings.SplitN(r, " ", 2)[0])
+		}
+		sort.Strings(st)
+		return "response-no-sequential-order-gives/" + sc.Name[strings.Index(sc.Name, "/")+1:] + "/" + strings.Join(st, "+"), fmt.Sprintf("responses %q; sequential orders give only %q", o.flat, al)
 	}
 	return "", ""
 }
@@ -557,7 +589,7 @@ func TestVerif_C08(t *testing.T) {
 			if os.Getenv("C08_DEBUG") != "" {
 				res.Count("sched/"+sc.Name+"/"+mode, int64(st.Execs))
 			}
-			res.Sample(12, map[string]any{"scenario": sc.Name, "mode": mode, "schedules": st.Execs, "max_choice_points": st.MaxPoints, "distinct_response_vectors": outcomes.Len(), "sequential_vectors": len(allowed), "bound": bound})
+			res.Sample(64, map[string]any{"scenario": sc.Name, "mode": mode, "schedules": st.Execs, "max_choice_points": st.MaxPoints, "distinct_response_vectors": outcomes.Len(), "sequential_vectors": len(allowed), "bound": bound})
 			if !st.Complete {
 				res.Exhaustive = false
 				res.Note("scenario %s/%s stopped by %s after %d schedules", sc.Name, mode, st.StoppedBy, st.Execs)
